@@ -14,6 +14,7 @@ structure Inv (k : Bool) (s : State) : Prop where
   own : ∀ a, a ∈ s.holders → s.owner = some a
   /-- D4: nobody is ever woken by a notify … -/
   no_woke : ∀ g, (s.pc g).woke = false
+  no_rechecks : ∀ g, (s.pc g).rechecks = false
   /-- … which is why D6 never strikes -/
   barge0 : s.barge = 0
   rq_pc : ∀ g, g ∈ s.rq → (s.pc g).inQ = true
@@ -21,8 +22,8 @@ structure Inv (k : Bool) (s : State) : Prop where
   dl : ∀ g r d, s.pc g = .tParked r d → r ≤ d
   t_timed : ∀ g r d, s.pc g = .tParked r d → s.timed = true
 
-theorem inv_init (k : Bool) (n : Nat) : Inv k (init k false n) := by
-  constructor <;> simp [init] <;> intro g <;> split <;> simp [Pc.woke, Pc.inQ]
+theorem inv_init (k lp : Bool) (n : Nat) : Inv k (init k false lp n) := by
+  constructor <;> (simp only [init]) <;> grind [Pc.woke, Pc.inQ, Pc.rechecks]
 
 theorem mem_of_mem_erase' {l : List Fid} {a f : Fid} (h : a ∈ l.erase f) : a ∈ l := List.mem_of_mem_erase h
 
@@ -32,32 +33,35 @@ theorem erase_nil_of_length {l : List Fid} {f : Fid} (h : f ∈ l) (h1 : l.lengt
   exact List.length_eq_zero_iff.mp this
 
 macro "rm_auto" : tactic =>
-  `(tactic| (constructor <;> (try simp only [lockHelper, doWokenAcq, doUnlock, notifyR, doPark, doTlfPark, doTlfTimeout, Free] at *) <;>
+  `(tactic| (constructor <;> (try simp only [lockHelper, doWokenAcq, doUnlock, notifyR, doPark, doTlfPark, doTlfTimeout, doTlfRepark, Free] at *) <;>
       grind [upd_apply, mem_rm, Mx.length_erase_mem, mem_of_mem_erase', erase_nil_of_length, List.length_append,
-        Pc.woke, Pc.inQ]))
+        Pc.woke, Pc.inQ, Pc.rechecks]))
 
 set_option maxHeartbeats 4000000 in
 theorem inv_step {k s l s'} (hi : Inv k s) (hs : Step s l s') : Inv k s' := by
-  cases hi
   cases hs with
-  | lockFast f h hf => rm_auto
-  | lockPark f h hf => rm_auto
-  | lockWokenAcq f h => rename_i nw _ _ _ _ _; have := nw f; rw [h] at this; simp [Pc.woke] at this
-  | tryOk f h hf => rm_auto
-  | tryFail f h hf => rm_auto
-  | unlock f h hh hp => rm_auto
-  | unlockPatched f w h hh hp hw => simp_all
-  | tlfFast f hk h hf => rm_auto
-  | tlfPark f t d j hk h hf ht => rm_auto
-  | tlfWokenAcq f hk h => rename_i nw _ _ _ _ _; have := nw f; rw [h] at this; simp [Pc.woke] at this
-  | tlfTimeout f t req dl hk h hd ht => rm_auto
-  | sleepStart f t d h ht => rm_auto
-  | sleepWake f t dl h hd ht => rm_auto
-  | finish f h => rm_auto
+  | lockFast f h hf => cases hi; rm_auto
+  | lockPark f h hf => cases hi; rm_auto
+  | lockWokenAcq f h => have := hi.no_woke f; rw [h] at this; simp [Pc.woke] at this
+  | lockRecheckAcq f h hf => have := hi.no_rechecks f; rw [h] at this; simp [Pc.rechecks] at this
+  | lockRepark f h hf => have := hi.no_rechecks f; rw [h] at this; simp [Pc.rechecks] at this
+  | tryOk f h hf => cases hi; rm_auto
+  | tryFail f h hf => cases hi; rm_auto
+  | unlock f h hh hp => cases hi; rm_auto
+  | unlockPatched f w h hh hp hw => have h1 := hi.np; simp_all
+  | tlfFast f hk h hf => cases hi; rm_auto
+  | tlfPark f t d j hk h hf ht => cases hi; rm_auto
+  | tlfWokenAcq f hk h => have := hi.no_woke f; rw [h] at this; simp [Pc.woke] at this
+  | tlfRecheckAcq f req hk h hf => have := hi.no_rechecks f; rw [h] at this; simp [Pc.rechecks] at this
+  | tlfRepark f req j hk h hf => have := hi.no_rechecks f; rw [h] at this; simp [Pc.rechecks] at this
+  | tlfTimeout f t req dl hk h hd ht => cases hi; rm_auto
+  | sleepStart f t d h ht => cases hi; rm_auto
+  | sleepWake f t dl h hd ht => cases hi; rm_auto
+  | finish f h => cases hi; rm_auto
 
-theorem inv_reachable {k n s} (h : Reachable k false n s) : Inv k s := by
+theorem inv_reachable {k lp n s} (h : Reachable k false lp n s) : Inv k s := by
   induction h with
-  | init => exact inv_init k n
+  | init => exact inv_init k lp n
   | step _ hs ih => exact inv_step ih hs
 
 /-- in a quiescent state every fiber has finished or is parked by `lock()` -/
@@ -71,6 +75,8 @@ theorem quiescent_classify {k s} (hi : Inv k s) (hq : Quiescent s) (f : Fid) : s
       exact absurd (Step.tlfTimeout s f (max s.now d) r d (hi.t_timed f r d hp) hp (Nat.le_max_right _ _)
         (Nat.le_max_left _ _)) (hq _ _)
   | tWoken => have := hi.no_woke f; rw [hp] at this; simp [Pc.woke] at this
+  | locking => have := hi.no_rechecks f; rw [hp] at this; simp [Pc.rechecks] at this
+  | tLocking r => have := hi.no_rechecks f; rw [hp] at this; simp [Pc.rechecks] at this
   | sleeping d =>
       exact absurd (Step.sleepWake s f (max s.now d) d hp (Nat.le_max_right _ _) (Nat.le_max_left _ _)) (hq _ _)
 
